@@ -372,6 +372,8 @@ func rulesC17(c *Ctx) {
 		c.Check(okB, "yieldFrom:bounded", yf, nil, "iteration is bounded by the length of the index")
 	})
 
+	c.Import("R-C17-6", "a traversal never mixes pages of different list versions out of the client's cache: every notification-driven invalidation moves the cache generation (also when the cache is empty), and a page fetched before it is not stored afterwards", "C18", "R-C18-6", nil)
+
 	c.Rule("R-C17-5", "the client iterators yield what manual paging yields: every item of every page, following NextCursor until it is empty, stopping at the first error", func() {
 		p := c.Fn(pM, "", "paginate")
 		var it *Func
